@@ -50,12 +50,15 @@ STOP_CLAUSES = ('start-after-stop', 'waited-for-normal-completion', 'not-cancell
                 'shutdown-phase-begins-at-wrong-instant', 'run-ends-at-wrong-instant')
 
 
-def phase_oracle(prop_id, cause, ix, trace, res, clauses=STOP_CLAUSES, results=True):
+def phase_oracle(prop_id, cause, ix, trace, res, clauses=STOP_CLAUSES, results=True,
+                 focus=None):
     """apply the phase-chain clauses to every scheduler run that ended with `cause`;
     returns the list of analyses (for non-triviality rules)"""
     from .. import phases
     out = []
     for sp in ix.scheds():
+        if focus is not None and not focus(sp['id'], None):
+            continue
         an = phases.analyse(ix, sp['id'])
         if an is None or an['cause'] != cause:
             continue
